@@ -299,10 +299,11 @@ _N_SHARED = 46  # case ids are positional: the first 46 shared programs, then C0
 
 
 def progs(tier):
-    from .c06 import PROGS
+    from .c06 import PROGS, PARS2, CMTOPS
+    late = list(CMTOPS) + list(PARS2)  # C06 programs added after EXTRA7 existed: they go to the very end (positional case ids)
     base = list(PROGRAMS[:_N_SHARED])
-    base += [p for p in PROGS if p not in base and p not in PROGRAMS[_N_SHARED:]]
-    return base + [p for p in PROGRAMS[_N_SHARED:] if p not in base] + EXTRA7
+    base += [p for p in PROGS if p not in base and p not in PROGRAMS[_N_SHARED:] and p not in late]
+    return base + [p for p in PROGRAMS[_N_SHARED:] if p not in base] + EXTRA7 + late
 
 
 EXTRA7 = [  # appended last (positional case ids)
